@@ -23,8 +23,12 @@ def specs(tier, seed):
             flip = base32 and rng.random() < 0.4
             red.setdefault(n, []).append([back, int(rng.random() < 0.5), int(flip), 0,
                                           rng.choice([0, 200, 3000, 15000, 40000])])
-        out.append({"seed": seed * 100000 + 1600 + i, "sess": sess, "relay": dict(relay), "redeliver": red,
-                    "pkts": common.packets(seed + 160 + i, tier), "dur_ms": 40000, "label": "red%d" % i})
+        sp = {"seed": seed * 100000 + 1600 + i, "sess": sess, "relay": dict(relay), "redeliver": red,
+              "pkts": common.packets(seed + 160 + i, tier), "dur_ms": 40000, "label": "red%d" % i}
+        if i % 4 == 3:
+            kinds = ["switchcodec", "option", "setfrag", "login", "ipreq"]
+            sp["redeliver_hs"] = {n: [[kinds[(n + i) % 5], rng.choice([0, 300, 5000])]] for n in range(4, 120, 9)}
+        out.append(sp)
     # -c (no source check): re-delivery from another relay address
     for i in range(6 if tier == "quick" else 60):
         red = {}
@@ -51,9 +55,17 @@ def specs(tier, seed):
         red = {}
         for n in range(6, 70):
             red[n] = [[b, (n + b) % 2, 1, 0, 50 + 40 * k] for k, b in enumerate([5, 6, 8, 10, 12, 14]) if (n + b + i) % 3 == 0]
-        out.append({"seed": seed * 100000 + 1900 + i,
-                    "sess": {"qtype": common.QTYPES[i % 7], "lazy": i % 2, "fragsize": None},
-                    "relay": {"qcase": "lower"}, "redeliver": red, "pkts": pk, "dur_ms": 20000, "label": "reddense%d" % i})
+        sp = {"seed": seed * 100000 + 1900 + i,
+              "sess": {"qtype": common.QTYPES[i % 7], "lazy": i % 2, "fragsize": None},
+              "relay": {"qcase": "lower"}, "redeliver": red, "pkts": pk, "dur_ms": 20000, "label": "reddense%d" % i}
+        if i % 2:
+            # ... and late copies of the session's own handshake queries (codec switch, option, fragment size, login,
+            # address request) arrive in between: none of them makes the server forget what it has seen
+            kinds = ["switchcodec", "option", "setfrag", "login", "ipreq", "switchcodec"]
+            sp["redeliver_hs"] = {n: [[kinds[(n // 7 + i // 2 + j) % 6], 30 + 400 * j] for j in range(1 + n % 2)]
+                                  for n in range(5 + i % 3, 60, 7)}
+            sp["label"] = "redhs%d" % i
+        out.append(sp)
     # a downstream packet that needs more than 16 fragments stalls at fragment 16 (its acks can never match) and is
     # re-sent with every answer until the re-send limit drops it: every case-flipped copy of the HELD ping that is
     # processed as a query of its own is one more re-send, and some of them are the one that drops the packet (only
